@@ -183,7 +183,7 @@ func c02Notes(rec *evid.Rec) {
 func TestC02_Rapid(t *testing.T) {
 	rec := evid.For("C02")
 	c02Notes(rec)
-	pbt.Check(t, rec, "decode", evid.Pick(25000, 400000), func(rt *rapid.T) (any, error) {
+	pbt.Check(t, rec, "decode", evid.Pick(60000, 400000), func(rt *rapid.T) (any, error) {
 		dc := genDecodeCase(rt)
 		c := c02Case{Input: dc.Input, Prior: dc.Prior, Source: dc.Source, FailAt: rapid.IntRange(0, 3).Draw(rt, "failAt")}
 		sig, nt, class := c02Sig(unHex(c.Input))
